@@ -132,7 +132,7 @@ pub fn lanes() -> Vec<Lane> {
         cfg: cfg_default,
         check: oracle::check_c04_real,
         nontrivial: estab_nontrivial,
-        rule: "seeded cases on the transports the simulator replaces by its in-memory pipe: kernel TCP (dialled or pre-opened), Unix sockets (ldapi URL or pre-opened pair), TLS (ldaps) and StartTLS through native-tls/OpenSSL, asynchronous and synchronous API; 0-3 answered binds, then one ending: unbind with a surviving clone, all handles dropped, the peer closes / resets / sends an undecodable frame while 1-4 operations wait, the peer closes while nothing waits; clauses: every waiting operation returns an error, drive() returns, an operation started afterwards fails, and after unbind resp. the last drop the scripted peer sees the end of the client's stream - each within a 5 s real-time guard that only expires on a violation; non-trivial = not skipped for environment reasons; distinct = distinct (transport, API, ending, warm-up, observation) tuples",
+        rule: "seeded cases on the transports the simulator replaces by its in-memory pipe: kernel TCP (dialled or pre-opened), Unix sockets (ldapi URL or pre-opened pair), TLS (ldaps) and StartTLS through native-tls/OpenSSL, asynchronous and synchronous API; StartTLS also over a pre-opened TCP stream; 0-3 answered binds, then one ending: unbind with a surviving clone, all handles dropped, the peer closes / resets / sends an undecodable frame while 1-4 operations wait, the peer closes while nothing waits, the peer hangs up at accept (on a busy runtime, so that the end of the stream is known before the driver's first poll); clauses: every waiting operation returns an error, drive() returns, an operation started afterwards fails, and after unbind resp. the last drop the scripted peer sees the end of the client's stream - each within a 5 s real-time guard that only expires on a violation; non-trivial = not skipped for environment reasons; distinct = distinct (transport, API, ending, warm-up, observation) tuples",
         runner: Some(crate::realio::run),
         expand: None,
         quick: 1_500,
@@ -171,7 +171,7 @@ pub fn lanes() -> Vec<Lane> {
         cfg: cfg_small_stack,
         check: oracle::check_c11,
         nontrivial: hostile_nontrivial,
-        rule: "seeded HOSTILE scenarios (1-3 pending single operations or searches; one hostile item spliced in at a response frame boundary, followed by the valid replies; the server closes one simulated second after its last byte): random bytes, bit flips, every single-field mutation of a valid frame (outer tag/class/form, message ID missing / wrong tag / constructed / empty, protocolOp missing, inner lengths inflated and truncated, outer length inflated and truncated, operations of the wrong kind for the ID, oversize and indefinite length octets, malformed control lists and result bodies, huge announced length), nesting depths 10 .. 200 000; each run on a thread with a 2 MiB stack inside a supervised worker process; non-trivial = the hostile item was delivered while a call was waiting; distinct = distinct (mutation class, history-shape) pairs",
+        rule: "seeded HOSTILE scenarios (1-3 pending single operations or searches; one hostile item spliced in at a response frame boundary, followed by the valid replies; the server closes one simulated second after its last byte): random bytes, bit flips, every single-field mutation of a valid frame (outer tag/class/form, message ID missing / wrong tag / constructed / empty, protocolOp missing, inner lengths inflated and truncated, outer length inflated and truncated, operations of the wrong kind for the ID, oversize and indefinite length octets, malformed control lists and result bodies, huge announced length), nesting depths 10 .. 200 000 of universal, context- and application-class elements; in a third of the runs nothing follows the item for 5-300 ms; each run on a thread with a 2 MiB stack inside a supervised worker process; non-trivial = the hostile item was delivered while a call was waiting; distinct = distinct (mutation class, history-shape) pairs",
         runner: None,
         expand: None,
         quick: 60_000,
@@ -184,7 +184,7 @@ pub fn lanes() -> Vec<Lane> {
         cfg: cfg_default,
         check: oracle::check_c14,
         nontrivial: sync_nontrivial,
-        rule: "seeded SYNC scripts (2-9 calls over the whole LdapConn / EntryStream surface incl. modifiers set per call or earlier, streams with and without EntriesOnly, last_id, is_closed, get_peer_certificate, refused calls; server plans: results of every code class, silence with a timeout, delayed replies, disconnect at a random request index, unbind); each script runs once through Ldap / SearchStream on the simulator's executor and once through LdapConn / EntryStream (hook H5) on the same kind of paused-clock runtime; non-trivial = the script used a modifier, a stream, a timeout or met a disconnect; distinct = distinct history-shape hash of the asynchronous run",
+        rule: "seeded SYNC scripts (2-9 calls over the whole LdapConn / EntryStream surface incl. modifiers set per call or earlier, streams with and without EntriesOnly, a final paged search, last_id, is_closed, get_peer_certificate, refused calls; server plans: results of every code class, silence with a timeout, searches never finished, delayed replies, disconnect at a random request index, idle hang-up, unbind); each script runs once through Ldap / SearchStream on the simulator's executor and once through LdapConn / EntryStream (hook H5) on the same kind of paused-clock runtime; non-trivial = the script used a modifier, a stream, a timeout or met a disconnect; distinct = distinct history-shape hash of the asynchronous run",
         runner: None,
         expand: None,
         quick: 60_000,
@@ -266,7 +266,7 @@ fn lanes_base() -> Vec<Lane> {
         cfg: cfg_default,
         check: oracle::check_c01,
         nontrivial: overlap,
-        rule: "seeded MUX scenarios (1-5 handles, 1-8 steps each); non-trivial = at least two operations were outstanding at the server at once; distinct = distinct history-shape hash (sequence of event kinds and actors, values abstracted)",
+        rule: "seeded MUX scenarios (1-5 handles, 1-8 steps each; shapes: in-flight abandon of an operation or of a stream that is being read, with late traffic; ID recycling with a held or an orphaned search; counter passing the top of the ID space under ID-0 notices; dropped search start with the ID re-issued); non-trivial = at least two operations were outstanding at the server at once; distinct = distinct history-shape hash (sequence of event kinds and actors, values abstracted)",
         runner: None,
         expand: None,
         quick: 200_000,
@@ -292,7 +292,7 @@ fn lanes_base() -> Vec<Lane> {
         cfg: cfg_default,
         check: oracle::check_c13,
         nontrivial: leak_nontrivial,
-        rule: "seeded LEAK scenarios (1-3 clients, 1-5 rounds of 1-5 lifecycles each: completed/failed single operations, timeouts with late replies, abandons of finished / timed-out / in-flight operations, search(), direct and adapted streams read to the end / finished early / finished twice / timed out, unsolicited traffic; a barrier and a table snapshot at quiescence after every round); non-trivial = a checkpoint was taken after at least three completed calls; distinct = distinct history-shape hash",
+        rule: "seeded LEAK scenarios (1-3 clients, 1-5 rounds of 1-5 lifecycles each: completed/failed single operations, timeouts with late replies, abandons of finished / timed-out / in-flight operations, search(), direct and adapted streams read to the end / finished early / finished twice / timed out / failed by an adapter of the caller's own, search starts dropped after a poll or two, a peer that stops reading for a while, unsolicited traffic; a barrier and a table snapshot at quiescence after every round); non-trivial = a checkpoint was taken after at least three completed calls; distinct = distinct history-shape hash",
         runner: None,
         expand: None,
         quick: 100_000,
@@ -318,7 +318,7 @@ fn lanes_base() -> Vec<Lane> {
         cfg: cfg_default,
         check: oracle::check_c12,
         nontrivial: time_nontrivial,
-        rule: "seeded TIME scenarios (1-3 clients, 1-6 operations each: timed / untimed single operations, search() and streams; timeouts 1 ms - 60 s; reply delays and item gaps at 0, T/2, T-1, T, T+1, 2T, 3T and random around T; silent servers; barriers); non-trivial = at least one call returned a timeout or returned a reply that arrived within 2 ms of its deadline; distinct = distinct history-shape hash",
+        rule: "seeded TIME scenarios (1-3 clients, 1-6 operations each: timed / untimed single operations, search() and streams; timeouts 1 ms - 60 s; reply delays and item gaps at 0, T/2, T-1, T, T+1, 2T, 3T and random around T; silent servers; timed calls refused locally; paged searches against a server that stalls on a page; a peer that stops reading; barriers); non-trivial = at least one call returned a timeout or returned a reply that arrived within 2 ms of its deadline; distinct = distinct history-shape hash",
         runner: None,
         expand: None,
         quick: 150_000,
@@ -590,6 +590,7 @@ fn ret_tag(r: &crate::world::Ret) -> u64 {
         Fin(r) => 1000 + r.rc as u64,
         State(_) => 8,
         Probe { .. } => 9,
+        Cert(_) => 13,
         Err(e) => 2000 + err_tag(e),
         Cancelled => 10,
         Panicked(_) => 11,
@@ -691,7 +692,7 @@ fn expand_fault(lane: &Lane, verif_seed: u64, index: u64) -> Vec<Case> {
     for j in 0..n_emissions {
         for (class, bytes) in undecodable.iter() {
             let mut sc = base.clone();
-            sc.plan.hostile = Some(Hostile { before_emission: j, class: class.to_string(), bytes: bytes.clone(), must_end: true, nest: None, outer_inflated: false, gap_after_ms: 0 });
+            sc.plan.hostile = Some(Hostile { before_emission: j, class: class.to_string(), bytes: bytes.clone(), must_end: true, nest: None, outer_inflated: false, gap_after_ms: 0, nest_tag: 0 });
             let k = out.len() as u64;
             out.push(Case { sc, trace: Some(rref.trace.clone()), sched_seed: mix(&[s.sched, k, 6]), cfg: RunCfg { diverge_seed: Some(mix(&[s.sched, k, 5])), ..cfg0() }, label: format!("undecodable({class})-before-emission#{j}"), runner: None });
         }
